@@ -22,6 +22,8 @@ import threading
 PROP = "C12"
 LOCK = threading.Lock()
 BREAKDOWN = {}     # key -> {(part, family, reason): rejected cases}
+INCONCLUSIVE = [0]
+TOTALRUNS = [0]
 
 
 def note(key, part, fam, why):
@@ -242,7 +244,7 @@ def component_part(tier, verd, stats, cov):
         # seeded random long histories, every observer after every event
         rg = random.Random(vlib.seed() * 31 + 1)
         rh = []
-        for i in range(2000 if thorough else 350):
+        for i in range(2000 if thorough else 250):
             h, cap = rand_stack_hist(rg, rg.choice([30, 60, 120] if thorough else [30, 60]))
             rh.append({"id": i + 1, "impl": rg.choice(["fixed", "auto"]), "size": rg.choice([cap, cap + 1, 64, 256]), "h": h})
         recs, n = run_stack_hists(rh, "rand", verd, stats, obsall=True, batch=400)
@@ -254,7 +256,7 @@ def component_part(tier, verd, stats, cov):
         gens = r.tag("GEN")
         cov["reg_gen_exported"] = len(gens)
         # a seeded sample of the exported transitions bounds the validation time
-        gens = random.Random(vlib.seed() * 7 + 3).sample(gens, min(len(gens), 200000 if thorough else 12000))
+        gens = random.Random(vlib.seed() * 7 + 3).sample(gens, min(len(gens), 200000 if thorough else 8000))
         hists = [{"id": i + 1, "cfg": g["cfg"], "h": g["h"]} for i, g in enumerate(gens)]
         recs, n = run_reg_hists(hists, "gen", verd, stats, batch=3000)
         cov["reg_gen"] = n
@@ -268,7 +270,7 @@ def component_part(tier, verd, stats, cov):
         for size, grow in ((4, 1), (4, 3), (8, 2), (8, 5), (128, 32), (128, 1), (129, 32)):
             for mx in (0, size - 1, size, size + 1, size + grow, size + grow + 1, 2 * size, 10 * size):
                 cfgs.append([size, grow, mx])
-        for i in range(2000 if thorough else 350):
+        for i in range(2000 if thorough else 250):
             cfg = rg.choice(cfgs)
             rh.append({"id": i + 1, "cfg": cfg, "h": rand_reg_hist(rg, cfg, rg.choice([15, 30, 50] if cfg[0] < 100 else [15, 25]))})
         recs, n = run_reg_hists(rh, "rand", verd, stats, obsall=True, batch=250)
@@ -376,7 +378,19 @@ def run_matrix(items, tag, timeout=1500):
     import lsem
     progs = [{"id": i + 1, "src": src, "opts": {k: v for k, v in o.items() if v}} for i, (src, o) in enumerate(items)]
     outs = lsem.run_real(progs, "c12" + tag, extra=["--deadline", "40s"], timeout=timeout)
-    return [outs[i + 1] for i in range(len(items))]
+    # a run that hit the wall-clock deadline or whose child process died (memory pressure) on a loaded machine is
+    # repeated with a long deadline and little parallelism before anything is concluded from it (a real hang or
+    # a real Go fatal error reproduces)
+    slow = [p for p in progs if outs[p["id"]]["outcome"][0] in ("hang", "crash", "budget")]
+    if slow:
+        vlib.log("[C12]   %d run(s) hit the 40s deadline or lost their child process; repeated with a 300s deadline, 4 at a time" % len(slow))
+        outs.update(lsem.run_real(slow, "c12" + tag + "slow", extra=["--deadline", "300s", "-p", "4"], timeout=timeout))
+    res = [outs[i + 1] for i in range(len(items))]
+    # "budget" = the harness's own safety net (poll budget / 6 s of wall clock) ended the run: inconclusive,
+    # dropped by the callers and counted; too many of them is an infrastructure error
+    INCONCLUSIVE[0] += sum(1 for o in res if o["outcome"][0] == "budget")
+    TOTALRUNS[0] += len(res)
+    return res
 
 
 def limits_validate(recs, tag, stats, batch):
@@ -438,6 +452,8 @@ def limit_key(kind, fam, why, badruns):
         return "C12:autostack:SetSp(Sp)-on-full-segment"
     if all(r["o"].get("msm") and r["o"].get("css", 0) > 8 * 65536 for r in badruns):
         return "C12:autostack:segIdx-uint16-wrap"
+    if fam == "rec:tail-into-wide-frame" and (why == "crash" or ums == ["index-out-of-range"]):
+        return "C12:tailcall:registry-overflow-raises-go-panic"
     if "xpcall" in fam and ums == ["registry-overflow"]:
         return "C12:xpcall:registry-overflow-escapes-when-handler-set"
     k = "C12:%s:%s:%s" % (kind, fam, why)
@@ -469,7 +485,7 @@ def probe_configs(pr, tier, reg_tuples, rng):
                 for noctx in (False, True):
                     out.append((mk_opts(css, 0, 0, 0, True, noctx), False, 0))
     else:
-        csss = [0, 1024] if pr["name"].startswith("rec:heavy") else ([0, 64] if thorough else [0])
+        csss = [0, 1024] if pr["name"].startswith(("rec:heavy", "rec:tail")) else ([0, 64] if thorough else [0])
         # growing a register file to 10 x 5120 slots is quadratic for small grow steps (every resize copies the
         # live prefix): such tuples only in the thorough tier, default/large steps, attempts sharing one thread
         tuples = [t for t in reg_tuples if t[3] <= 6000 or (thorough and t[2] != 1 and not pr.get("fresh"))]
@@ -543,10 +559,13 @@ def probe_part(tier, sweep_tuples, verd, stats, cov):
     for pi, pr in enumerate(probes):
         recs.append({"id": pi + 1, "kind": "probe", "name": pr["name"], "B": pr["B"], "F": pr["F"], "B0": pr["B0"],
                      "amin": pr["amin"], "amax": pr["amax"], "cmax": pr["cmax"], "fm": pr["fm"], "runs": []})
-    for (pi, ci), o in zip(index, outs):
+    for k, ((pi, ci), o) in enumerate(zip(index, outs)):
         pr = probes[pi]
         opts, cal, N = pr["cfgs"][ci]
+        if o["outcome"][0] == "budget":
+            continue
         run = probe_run_record(o, opts, cal, pr.get("fresh"))
+        run["k"] = k
         recs[pi]["runs"].append(run)
     t1 = time.time()
     vs = limits_validate(recs, "probe", stats, batch=6)
@@ -574,7 +593,7 @@ def probe_part(tier, sweep_tuples, verd, stats, cov):
             lims = "n=%s np=%d ok=%r etype=%r again=(%r,%s) outcome=%s %s" % (
                 r0["n"], r0["np"], r0["pok"], r0["ety"], r0["aok"], r0["av"], r0["oc"], r0["um"])
             for r_ in runs:
-                k_ = [k for k, ix in enumerate(index) if ix[0] == rec["id"] - 1][rec["runs"].index(r_)]
+                k_ = r_["k"]
                 fresh = bool(probes[rec["id"] - 1].get("fresh"))
 
                 def fp(o, r_=r_, fresh=fresh):
@@ -600,7 +619,7 @@ def sweep_part(tier, sweep_tuples, verd, stats, cov):
     thorough = tier == "thorough"
     rng = random.Random(vlib.seed() * 15485863 + 3)
     corpus = []          # (family, name, src, luasem-program or None)
-    ngen = 160 if thorough else 60
+    ngen = 160 if thorough else 48
     for i in range(ngen):
         p, root, src = gen_core.gen_program(vlib.seed() * 1000000 + 120000 + i, err_rate=0.10)
         corpus.append(("gen", "gen#%d" % i, src, {"root": root, "nodes": p.nodes[1:]}))
@@ -624,7 +643,7 @@ def sweep_part(tier, sweep_tuples, verd, stats, cov):
         if fam in ("overflow-then-gen:unpack", "overflow-then-gen:huge-arglist"):
             # growing to 10 x 5120 slots in steps of 1 copies the live prefix at every step (quadratic): left out
             pool = [t for t in alltuples if not (t["rgs"] == 1 and t["rms"] > 6000)]
-        cfgs = [ref] + ladder + (pool if pi in full else rng.sample(pool, 250 if thorough else 80))
+        cfgs = [ref] + ladder + (pool if pi in full else rng.sample(pool, 250 if thorough else 60))
         for ci, o in enumerate(cfgs):
             items.append((src, o))
             index.append((pi, o))
@@ -634,14 +653,23 @@ def sweep_part(tier, sweep_tuples, verd, stats, cov):
              % (len(corpus), len(items), time.time() - t1, len(full), len(alltuples)))
     recs = [{"id": pi + 1, "kind": "sweep", "name": c[1], "fam": c[0], "ref": "", "runs": []} for pi, c in enumerate(corpus)]
     refouts = {}
+    dropped = set()
     for (pi, o), out in zip(index, outs):
+        if out["outcome"][0] == "budget":
+            if not recs[pi]["runs"]:
+                dropped.add(pi)            # no reference trace: the program is left out
+            continue
+        if pi in dropped:
+            continue
         h = vlib.canon_hash({"emits": out["emits"], "outcome": out["outcome"][:2]})[:16]
         if not recs[pi]["runs"]:
             recs[pi]["ref"] = h
             refouts[pi] = out
         recs[pi]["runs"].append({"o": o, "oc": out["outcome"][0], "h": h, "um": uncaught(out), "ne": len(out["emits"])})
     # the reference traces of the generated programs are themselves validated against LuaSem
-    lsprogs = [{"id": pi + 1, "src": c[2], "root": c[3]["root"], "nodes": c[3]["nodes"]} for pi, c in enumerate(corpus) if c[3]]
+    recs = [r_ for r_ in recs if r_["runs"]]
+    lsprogs = [{"id": pi + 1, "src": c[2], "root": c[3]["root"], "nodes": c[3]["nodes"]} for pi, c in enumerate(corpus)
+               if c[3] and pi in refouts]
     lsprogs = lsprogs[:80 if thorough else 24]
     lsv = lsem.validate(lsprogs, {p["id"]: refouts[p["id"] - 1] for p in lsprogs}, "c12ref", stats)
     cnt, _ = lsem.summarize(lsv)
@@ -700,13 +728,19 @@ def run(tier):
     def system_part():
         tuples = options_part(tier, verd, stats, cov)
         a = probe_part(tier, tuples, verd, stats, cov)
+        c = cotransfer_part(tier, tuples, verd, stats, cov)
         b = sweep_part(tier, tuples, verd, stats, cov)
-        return a + b + cov["option_tuples"]
+        return a + b + c + cov["option_tuples"]
 
     with ThreadPoolExecutor(max_workers=2) as ex:
         f1 = ex.submit(component_part, tier, verd, stats, cov)
         f2 = ex.submit(system_part)
         total = f1.result() + f2.result()
+    cov["inconclusive_runs_ended_by_the_harness_safety_net"] = INCONCLUSIVE[0]
+    if INCONCLUSIVE[0]:
+        vlib.log("[C12] %d of %d interpreter runs were ended by the harness safety net (inconclusive, left out)" % (INCONCLUSIVE[0], TOTALRUNS[0]))
+    if INCONCLUSIVE[0] * 20 > max(1, TOTALRUNS[0]):
+        raise vlib.Infra("more than 5%% of the interpreter runs were inconclusive (%d of %d)" % (INCONCLUSIVE[0], TOTALRUNS[0]))
     for key in sorted(BREAKDOWN):
         vlib.log("[C12] rejected cases with key %s:" % key)
         for (part, fam, why), c in sorted(BREAKDOWN[key].items()):
@@ -754,6 +788,17 @@ def replay(path):
     elif part == "options":
         vlib.log("options case: raw=%s predicted=%s observed=%s" % (rp["raw"], rp["predicted"]["norm"], rp["observed"]))
         verd.candidate(rec["key"], rec["what"], rp)
+    elif part == "cotransfer":
+        import c12_progs
+        rec0 = rp["record"]
+        out = run_matrix([(rp["src"], rec0["o"])], "replay")[0]
+        now = co_record(dict(rp["sc"], src=rp["src"]), rec0["id"], rec0["o"], out)
+        for e in now["ev"]:
+            vlib.log("event: %s" % json.dumps(e))
+        vlib.log("outcome %s; new coroutine afterwards: %s; follow-up: %s" % (now["oc"], now["fresh"], now["f"]))
+        vs = vlib.validate_batches("LuaCoTransferTrace", "LuaCoTransferTrace", [now], "c12_cotr_replay", batch=10, parallel=1)[0].tag("VERDICT")
+        if not vs[0]["ok"]:
+            verd.candidate(co_key(now, vs[0]["bad"][0], vs[0]["bad"][1]), rec["what"], rp)
     else:
         out = run_matrix([(rp["src"], rp["run"]["o"]), (rp["src"], mk_opts())], "replay")
         for o, tag in zip(out, ("failing configuration", "default configuration")):
@@ -772,3 +817,147 @@ def replay(path):
             if same:
                 verd.candidate(rec["key"], rec["what"], rp)
     return verd.finish()
+
+
+# ---------------------------------------------------------------------------
+# part 4: coroutine value transfers that overflow the receiving register file
+
+def co_event(em, via):
+    """one ("ev", ...) emit as an event record for LuaCoTransferTrace (data extraction only)"""
+    _, nin, a1, a2, st, run, cnt, r1, r2, r3, r4, r5, t2, t3 = em
+    e = {"n": int(nin), "a1": str(a1), "a2": str(a2), "st": str(st), "run": run is True, "res": "err", "cnt": 0, "v": [],
+         "ety": "", "msg": ""}
+    if via == "resume":
+        if r1 == "true" and r2 == "true":
+            e["res"], e["cnt"], e["v"] = "ok", int(cnt) - 2, [x for x in (r3, r4, r5)][:max(0, int(cnt) - 2)]
+        elif r1 == "true":
+            e["ety"], e["msg"] = str(t3), str(r3)          # resume returned false, message
+        else:
+            e["ety"], e["msg"] = str(t2), str(r2)          # raised in the resumer
+    else:
+        if r1 == "true":
+            e["res"], e["cnt"], e["v"] = "ok", int(cnt) - 1, [x for x in (r2, r3, r4)][:max(0, int(cnt) - 1)]
+        else:
+            e["ety"], e["msg"] = str(t2), str(r2)
+    return e
+
+
+def co_record(sc, rid, opts, out):
+    em = [[dec(x) for x in e] for e in out["emits"]]
+    rec = {"id": rid, "scen": sc["scen"], "via": sc["via"], "nested": sc["nested"], "K": sc["K"], "D": sc["D"], "fm": sc["fm"],
+           "nev": sc["nev"], "o": opts, "oc": out["outcome"][0], "um": uncaught(out), "ev": [], "fresh": [], "f": []}
+    try:
+        for e in em:
+            if e[0] == "ev":
+                rec["ev"].append(co_event(e, sc["via"]))
+            elif e[0] == "fresh":
+                rec["fresh"] = [str(x).lower() if isinstance(x, bool) else str(x) for x in e[1:]]
+            elif e[0] == "after":
+                rec["f"] = e[1:]
+    except Exception as ex:
+        rec["oc"] = "harness:" + str(ex)
+    return rec
+
+
+def co_key(rec, pos, why):
+    ev = rec["ev"][pos - 1] if 0 < pos <= len(rec["ev"]) else None
+    big_in = any(e["n"] > 8 and e["res"] == "err" for e in rec["ev"][:pos])
+    if rec["scen"] in ("echo", "vararg") and big_in and (why in ("status-after-refused-arguments", "running-coroutine-changed")
+                                                         or (ev and "running thread" in ev["msg"])):
+        return "C12:resume-args-overflow:coroutine-stays-running"
+    if rec["scen"] == "vararg" and big_in:
+        return "C12:resume-args-overflow:fresh-coroutine-unusable-afterwards"
+    if rec["scen"] in ("yieldbig", "returnbig"):
+        if why in ("status-after-dropped-results", "resume-results", "status-after-resume"):
+            return "C12:yield-results-overflow:coroutine-not-switched-out"
+        return "C12:yield-results-overflow:%s:%s" % (rec["scen"], why)
+    return "C12:cotransfer:%s:%s" % (rec["scen"], why)
+
+
+def cotransfer_part(tier, sweep_tuples, verd, stats, cov):
+    import c12_progs
+    thorough = tier == "thorough"
+    rng = random.Random(vlib.seed() * 2654435761 % 1000003 + 17)
+    # register-file configurations: fixed and growable (overflow at RegistryMaxSize), several sizes; lim from TLC
+    regs = sorted(set((t["rs"], t["rms"], t["rgs"], t["lim"]) for t in sweep_tuples if t["lim"] <= 6000 and t["rs"] != 127))
+    if not thorough:
+        keep = [t for t in regs if t[1] == 0 and t[2] == 0]
+        regs = keep + rng.sample([t for t in regs if t not in keep], 10)
+    items, meta = [], []
+    m = 10
+    for (rs, rms, rgs, lim) in regs:
+        for scen in sorted(c12_progs.CO_SCENARIOS):
+            for via in ("resume", "wrap"):
+                if scen == "vararg" and via == "wrap":
+                    continue                        # no handle to ask the status of a never-started wrap coroutine
+                for shape in ("long-list", "deep-receiver"):
+                    for nested in ((False, True) if thorough or shape == "long-list" else (False,)):
+                        # parameters only steer the run towards the overflow; nothing is judged from them
+                        NL = 60
+                        if scen == "vararg":
+                            if shape == "deep-receiver":
+                                continue
+                            K, D, NL = lim - 45, 1, min(150, lim // 2)
+                        elif shape == "long-list":
+                            K, D = (lim - 60, 4) if scen == "echo" else (lim - 40, 2)
+                        elif lim < 400:
+                            continue                # a deep receiver plus a list that fits the sender needs room
+                        else:
+                            D = min(200, (lim * 3 // 4) // 22)
+                            K = lim - 22 * D + 60
+                        m = m + 1 if m < 60 else 11
+                        sc = c12_progs.co_scenario(scen, via, K, D, m, nested, NL)
+                        for msm, noctx in ((False, False), (True, True)):
+                            o = mk_opts(0, rs, rms, rgs, msm, noctx)
+                            items.append((sc["src"], o))
+                            meta.append((sc, o))
+    t1 = time.time()
+    outs = run_matrix(items, "cotr")
+    keep = [i for i, out in enumerate(outs) if out["outcome"][0] != "budget"]
+    meta, outs = [meta[i] for i in keep], [outs[i] for i in keep]
+    recs = [co_record(sc, i + 1, o, out) for i, ((sc, o), out) in enumerate(zip(meta, outs))]
+    for r_ in recs:
+        if r_["oc"].startswith("harness:"):
+            raise vlib.Infra("cotransfer: cannot read the emits of run %d (%s)" % (r_["id"], r_["oc"]))
+    novf = sum(1 for r_ in recs if any(e["res"] == "err" for e in r_["ev"]))
+    vlib.log("[C12] coroutine transfers: %d scenario runs on the real interpreter (%.0fs); the long list overflowed the receiver in %d"
+             % (len(recs), time.time() - t1, novf))
+    if novf * 3 < len(recs):
+        raise vlib.Infra("cotransfer: only %d of %d runs reached the overflow (scenario parameters drifted)" % (novf, len(recs)))
+    vs = {}
+    for r in vlib.validate_batches("LuaCoTransferTrace", "LuaCoTransferTrace", recs, "c12_cotr", batch=1500, parallel=2, timeout=900):
+        with LOCK:
+            stats["states"] += r.distinct
+            stats["transitions"] += r.generated
+        got = r.tag("VERDICT")
+        if len(got) != r.nrecords:
+            raise vlib.Infra("LuaCoTransferTrace: %d verdicts for %d records" % (len(got), r.nrecords))
+        for v in got:
+            vs[v["id"]] = v
+    pending = []
+    for rec, (sc, o) in zip(recs, meta):
+        v = vs[rec["id"]]
+        if v["ok"]:
+            continue
+        pos, why = v["bad"]
+        if str(why).startswith("harness:"):
+            raise vlib.Infra("cotransfer: scenario script out of step in run %d (%s)" % (rec["id"], why))
+        key = co_key(rec, pos, why)
+        ev = rec["ev"][pos - 1] if 0 < pos <= len(rec["ev"]) else None
+
+        def fp(out, rec=rec, sc=sc, o=o):
+            x = rec if out is None else co_record(sc, rec["id"], o, out)
+            return json.dumps([x["oc"], x["ev"], x["fresh"], x["f"]], sort_keys=True)
+        what = "scenario %s via %s%s (K=%d, D=%d) under %s: %s at event %d%s" % (
+            rec["scen"], rec["via"], ", nested" if rec["nested"] else "", rec["K"], rec["D"],
+            json.dumps({k: x for k, x in o.items() if x}, sort_keys=True), why, pos,
+            (": " + json.dumps({k: ev[k] for k in ("n", "res", "st", "cnt", "v", "msg")})[:300]) if ev else " (outcome %s %s)" % (rec["oc"], rec["um"]))
+        pending.append((key, what, {"part": "cotransfer", "record": rec, "src": sc["src"], "sc": {k: sc[k] for k in sc if k != "src"},
+                                    "verdict": v}, sc["src"], o, fp, "cotransfer", "%s/%s" % (rec["scen"], rec["via"]), why))
+    confirm_and_report(pending, verd, "c")
+    cov["cotransfer_runs"] = len(recs)
+    cov["cotransfer_runs_with_overflow"] = novf
+    cov["cotransfer_register_configs"] = len(regs)
+    cov["samples"].append({"part": "cotransfer", "scenario": recs[0]["scen"], "opts": recs[0]["o"], "events": recs[0]["ev"]})
+    vlib.log("[C12] coroutine transfers: %d runs validated by LuaCoTransferTrace, %d rejected" % (len(recs), len(pending)))
+    return len(recs)
